@@ -212,6 +212,27 @@ func c12Loops(ctx *core.Ctx, r *core.Report, nodeI *types.Named, begin, end *ssa
 				}
 			}
 		}
+		// every return that can carry this BeginEdit's error lies behind the unwinding
+		if unwinds {
+			ecs := invokesOf(begin, false, nodeI, "EndEdit")
+			for _, ret := range core.Returns(begin) {
+				ops := core.RetOperands(ret)
+				if errv == nil || !dependsOn(ops[0], errv, 0) {
+					continue
+				}
+				behind := false
+				for _, ec := range ecs {
+					for lb := range loopBlocks(ec.Block()) {
+						if lb.Dominates(ret.Block()) {
+							behind = true
+						}
+					}
+				}
+				if !behind {
+					unwinds = false
+				}
+			}
+		}
 		r.Ob("begin-unwinds", "node.Selection.beginEdit/failure-exit", ctx.Pos(bc.Pos()), unwinds,
 			"when an ancestor's BeginEdit fails, the nodes already told the edit begins are not told it ended (the caller does not call endEdit for a failed begin)")
 	}
